@@ -117,6 +117,7 @@ func c20Request(which string, st c20Start) *signature.SignRequest {
 	case "B":
 		req.Payload.ContentType = "text/b"
 		req.SigningTime = pki.Now.Add(-2 * time.Hour)
+		req.Expiry = pki.Now.Add(240 * time.Hour) // request B also carries an expiry; request A has none
 		req.ExtendedSignedAttributes = []signature.Attribute{{Key: "io.example.b", Critical: true, Value: "b"}}
 	case "fail-before":
 		if st.remote {
